@@ -119,6 +119,8 @@ Definition key_eqb (a b : val) : bool :=
 
 Section Dec.
 Variable progs : list prog.
+(* one fuel for every loop of this Unmarshal call: > length of the whole input + 1 *)
+Variable F : nat.
 (* rec idx = the Decode method of message idx, as a Loop body over its fields *)
 Variable rec : nat -> @body msgv.
 
@@ -129,10 +131,10 @@ Definition set_slot (t : msgv) (slot : nat) (v : val) : msgv := (set_nth (fst t)
 
 (* picowire map PicoDecode *)
 Definition dec_map (kk vk : kind) (field : Z) (st : dstate) (entries : list (val * val)) : dstate * list (val * val) :=
-  dec_repeated_message (S (length (buf st))) field
+  dec_repeated_message F field
     (fun c m =>
        let '(c', (k, v)) :=
-           loop (loop_fuel c)
+           loop F
                 (fun c0 (kv : val * val) =>
                    let '(c1, k1) := dec_single kk 1 c0 (fst kv) in
                    let '(c2, v1) := dec_single vk 2 c1 (snd kv) in
@@ -149,9 +151,9 @@ Definition dec_cast_elem (c : cast) (field : Z) (st : dstate) (v : val) : dstate
   match c with
   | CastTs =>
       let old := match v with VTime s n => (s, n) | _ => (zero_time_sec, 0) end in
-      let '(st', (s, n)) := dec_timestamp field st old in (st', VTime s n)
+      let '(st', (s, n)) := dec_timestamp F field st old in (st', VTime s n)
   | CastDur =>
-      let '(st', d) := dec_duration field st (match v with VDur d => d | _ => 0 end) in (st', VDur d)
+      let '(st', d) := dec_duration F field st (match v with VDur d => d | _ => 0 end) in (st', VDur d)
   | CastMap kk vk =>
       let '(st', l) := dec_map kk vk field st (match v with VMap l => l | _ => [] end) in (st', VMap l)
   end.
@@ -169,7 +171,7 @@ Fixpoint dec_op (op : dop) (st : dstate) (t : msgv) {struct op} : dstate * msgv 
   | DScalar k rep ptr slot num =>
       let v := slot_get (fst t) slot in
       if rep then
-        let '(st', l) := dec_repeated (S (length (buf st))) k num st (as_list v) in (st', set_slot t slot (VList l))
+        let '(st', l) := dec_repeated F k num st (as_list v) in (st', set_slot t slot (VList l))
       else if ptr then
         (* if c.PendingField() == num { m.F = new(T); c.K(num, m.F) } *)
         if pf st =? num then
@@ -179,7 +181,7 @@ Fixpoint dec_op (op : dop) (st : dstate) (t : msgv) {struct op} : dstate * msgv 
         let '(st', x) := dec_single k num st v in (st', set_slot t slot x)
   | DMsgPtr slot num idx =>
       let '(st', v') :=
-          dec_message num
+          dec_message F num
             (fun c (v : val) =>
                let m := match v with VMsg (Some m) => m | _ => zero_msgv idx end in   (* if nil { new } *)
                let '(c', m') := rec idx c m in (c', VMsg (Some m')))
@@ -187,15 +189,15 @@ Fixpoint dec_op (op : dop) (st : dstate) (t : msgv) {struct op} : dstate * msgv 
       (st', set_slot t slot v')
   | DMsgRepPtr slot num idx =>
       let '(st', l) :=
-          dec_repeated_message (S (length (buf st))) num
+          dec_repeated_message F num
             (fun c (l : list val) =>
-               let '(c', m') := loop (loop_fuel c) (rec idx) c (zero_msgv idx) in
+               let '(c', m') := loop F (rec idx) c (zero_msgv idx) in
                (c', l ++ [VMsg (Some m')]))
             st (as_list (slot_get (fst t) slot)) in
       (st', set_slot t slot (VList l))
   | DMsgPresent slot num idx =>
       let '(st', v') :=
-          dec_message num
+          dec_message F num
             (fun c (v : val) =>
                let m := match v with VEmb fs u => (fs, u) | _ => zero_msgv idx end in
                let '(c', m') := rec idx c m in (c', VEmb (fst m') (snd m')))
@@ -203,16 +205,16 @@ Fixpoint dec_op (op : dop) (st : dstate) (t : msgv) {struct op} : dstate * msgv 
       (st', set_slot t slot v')
   | DMsgRepVal slot num idx =>
       let '(st', l) :=
-          dec_repeated_message (S (length (buf st))) num
+          dec_repeated_message F num
             (fun c (l : list val) =>
-               let '(c', m') := loop (loop_fuel c) (rec idx) c (zero_msgv idx) in
+               let '(c', m') := loop F (rec idx) c (zero_msgv idx) in
                (c', l ++ [VEmb (fst m') (snd m')]))
             st (as_list (slot_get (fst t) slot)) in
       (st', set_slot t slot (VList l))
   | DEnum slot num =>
       let '(st', x) := dec_single KInt32 num st (slot_get (fst t) slot) in (st', set_slot t slot x)
   | DRepEnum slot num =>
-      let '(st', l) := dec_repeated_enum (S (length (buf st))) num st (as_list (slot_get (fst t) slot)) in
+      let '(st', l) := dec_repeated_enum F num st (as_list (slot_get (fst t) slot)) in
       (st', set_slot t slot (VList l))
   | DCast c ptr rep slot num =>
       let v := slot_get (fst t) slot in
@@ -224,12 +226,12 @@ Fixpoint dec_op (op : dop) (st : dstate) (t : msgv) {struct op} : dstate * msgv 
             let '(st', x) := dec_cast_elem c num st cur in (st', set_slot t slot (VOpt (Some x)))
           else (st, t)
       | true, true =>
-          let '(st', l) := while_pending (S (length (buf st))) num
+          let '(st', l) := while_pending F num
                 (fun c0 l => let '(c1, x) := dec_cast_elem c num c0 (cast_zero c) in (c1, l ++ [VOpt (Some x)]))
                 st (as_list v) in
           (st', set_slot t slot (VList l))
       | true, false =>
-          let '(st', l) := while_pending (S (length (buf st))) num
+          let '(st', l) := while_pending F num
                 (fun c0 l => let '(c1, x) := dec_cast_elem c num c0 (cast_zero c) in (c1, l ++ [x]))
                 st (as_list v) in
           (st', set_slot t slot (VList l))
@@ -254,7 +256,7 @@ Fixpoint dec_op (op : dop) (st : dstate) (t : msgv) {struct op} : dstate * msgv 
             let '(st', x) := dec_cast_elem c num st cur in (st', set_slot t0 slot (VOpt (Some x)))
         | DMsgPtr _ _ idx =>
             let '(st', v') :=
-                dec_message num
+                dec_message F num
                   (fun c (v : val) =>
                      let m := match v with VMsg (Some m) => m | _ => zero_msgv idx end in
                      let '(c', m') := rec idx c m in (c', VMsg (Some m')))
@@ -264,7 +266,7 @@ Fixpoint dec_op (op : dop) (st : dstate) (t : msgv) {struct op} : dstate * msgv 
         end
       else (st, t)
   | DUnrec mask =>
-      let '(st', out) := dec_unrecognized (S (length (buf st))) mask st (snd t) in (st', (fst t, out))
+      let '(st', out) := dec_unrecognized F mask st (snd t) in (st', (fst t, out))
   end.
 
 Definition dec_body (ops : list dop) : @body msgv :=
@@ -272,18 +274,19 @@ Definition dec_body (ops : list dop) : @body msgv :=
 End Dec.
 
 (* the Decode method of message idx; fuel bounds the nesting depth (<= input length) *)
-Fixpoint dec_msg (fuel : nat) (progs : list prog) (idx : nat) : @body msgv :=
+Fixpoint dec_msg (fuel : nat) (progs : list prog) (F : nat) (idx : nat) : @body msgv :=
   match fuel with
   | O => fun st t => (fail 0 EStack st, t)
   | S f =>
       match nth_error progs idx with
       | None => fun st t => (fail 0 EStack st, t)
-      | Some p => dec_body progs (dec_msg f progs) (p_dec p)
+      | Some p => dec_body progs F (dec_msg f progs F) (p_dec p)
       end
   end.
 
 (* picobuf.Unmarshal(data, msg): dec.Loop(msg.Decode) with the initial nextField(0) *)
 Definition pico_unmarshal (progs : list prog) (idx : nat) (data : bytes) (m0 : msgv) : option (Z * ecls) * msgv :=
   let st0 := next_field 0 {| pf := 0; pw := 0; buf := data; err := None |} in
-  let '(st, m) := loop (loop_fuel st0) (dec_msg (S (length data)) progs idx) st0 m0 in
+  let F := S (S (S (length data))) in
+  let '(st, m) := loop F (dec_msg F progs F idx) st0 m0 in
   (err st, m).
